@@ -13,6 +13,11 @@
    * effective encoding of a preamble / metadata section by TREE POSITION: its own encoding if given, else that of
      the nearest enclosing file / change / main section that declares one ([Encodings.spec_effective], the
      definition C04 is stated against); diff sections use their own encoding only (ASCII newline if none);
+     a metadata section with NO effective encoding (nothing declared from the main section down to the section) is
+     the canonical JSON text as ASCII bytes ([json_dump]'s output is pure ASCII) + the ASCII LF, under a header
+     without [encoding] — ADDED with the fix of DiffXWriter.write_meta (`if not (encoding or self._cur_encoding):
+     content = content.encode('ascii')`): such a call used to raise TypeError, so [accepted] excluded it; it is now
+     accepted and writes exactly these bytes (C02_writer_is_spec_unencoded_ex);
    * header = [HeaderFacts.render_header dots name pairs] ++ LF (the SPEC-side renderer of C11), [pairs] = the
      options that are present, sorted by key, integers in decimal, strings verbatim; [length] = the number of bytes
      of the content that follows;
@@ -24,7 +29,7 @@
    * [None] when an argument is outside the domain (an encoding / mimetype / type / line_endings / version that is
      not None or an ASCII string (of the documented set), a negative or non-int indent, empty content, a metadata
      value that is not a non-empty dict json can dump, text the effective encoding cannot encode, no effective
-     encoding for text).
+     encoding for preamble text).
    Library helpers used as vocabulary by the specification side, each verified separately: py_encode (C14/C15),
    get_newline_for_type / guess_line_endings (C15), split_lines (C16), json_dump (C02_json_sorted), Z_to_dec
    (C02_decimal_round_trip), isort + bytes_leb (C02_isort_sorted, C02_bytes_leb_order).
@@ -34,15 +39,7 @@
    * [enc_ok v]       an encoding argument: None, or a str that is a catalogue spelling of a modelled codec;
    * [call_good c]    encodings [enc_ok]; write_preamble: indent omitted / None / an int >= 0, line_endings None /
                       "dos" / "unix"; write_diff: line_endings likewise; write_meta: the metadata is a dict;
-   * [accepted s0 cs] every call of cs, run in order from s0, returned normally;
-   * [metas_encoded s0 cs]  at every write_meta of cs an encoding is in force (the call's encoding argument or the
-                      innermost open container's is truthy).  ADDED with the fix of write_meta (`if not (encoding or
-                      self._cur_encoding): content = content.encode('ascii')`): [enc_ok] allows None, and in a
-                      DiffXWriter(encoding=None) a write_meta without encoding used to raise TypeError (so [accepted]
-                      excluded it) and is now accepted, the JSON being written as bytes; the specification's serializer
-                      has "no effective encoding for text" there and is undefined: without the hypothesis the three
-                      theorems below are false (C02_writer_is_spec_unencoded_refuted).  It holds for every program of a
-                      writer constructed with an encoding, pydiffx's default being utf-8 (C02_writer_is_spec_encoded).
+   * [accepted s0 cs] every call of cs, run in order from s0, returned normally.
    No size bound is needed (nothing is read back).
 
    STATUS: full — all five calls, whole sequences, every intermediate output.  The converse ("spec_serialize = Some b
@@ -61,37 +58,34 @@ Local Open Scope list_scope.
 
 (* the whole output of an accepted program is the specification's serialization of the same calls *)
 Theorem C02_writer_is_spec : forall enc0 ver s0 cs,
-  writer_init enc0 ver = (s0, Ok tt) -> enc_ok enc0 -> Forall call_good cs -> accepted s0 cs -> metas_encoded s0 cs ->
+  writer_init enc0 ver = (s0, Ok tt) -> enc_ok enc0 -> Forall call_good cs -> accepted s0 cs ->
   spec_serialize enc0 ver cs = Some (w_out (snd (run_calls s0 cs))).
 Proof. exact C02_writer_is_spec_thm. Qed.
 Print Assumptions C02_writer_is_spec.
 
-(* ... in particular for every writer constructed with an encoding *)
-Theorem C02_writer_is_spec_encoded : forall enc0 ver s0 cs,
-  writer_init enc0 ver = (s0, Ok tt) -> enc_ok enc0 -> wv_truthy enc0 = true -> Forall call_good cs -> accepted s0 cs ->
-  spec_serialize enc0 ver cs = Some (w_out (snd (run_calls s0 cs))).
-Proof. exact writer_is_spec_encoded. Qed.
-Print Assumptions C02_writer_is_spec_encoded.
-
-(* without [metas_encoded] the statement is false of the fixed writer: DiffXWriter(encoding=None); write_meta({'k': 1}) *)
-Theorem C02_writer_is_spec_unencoded_refuted :
+(* the path the fix of write_meta opened, on an instance: DiffXWriter(encoding=None); write_meta({'k': 1}) is
+   accepted with no encoding in force ([metas_encoded] fails), and both sides are these bytes *)
+Theorem C02_writer_is_spec_unencoded_ex :
   exists enc0 ver s0 cs,
     writer_init enc0 ver = (s0, Ok tt) /\ enc_ok enc0 /\ Forall call_good cs /\ accepted s0 cs /\
-    ~ metas_encoded s0 cs /\ spec_serialize enc0 ver cs = None.
-Proof. exact writer_is_spec_unencoded_refuted. Qed.
-Print Assumptions C02_writer_is_spec_unencoded_refuted.
+    ~ metas_encoded s0 cs /\
+    spec_serialize enc0 ver cs = Some (w_out (snd (run_calls s0 cs))) /\
+    w_out (snd (run_calls s0 cs)) =
+      B "#diffx: version=1.0" ++ [x0a] ++ B "#.meta: format=json, length=15" ++ [x0a] ++
+      B "{" ++ [x0a] ++ B "    ""k"": 1" ++ [x0a] ++ B "}" ++ [x0a].
+Proof. exact writer_is_spec_unencoded_ex. Qed.
+Print Assumptions C02_writer_is_spec_unencoded_ex.
 
 (* ... and so is the output after every prefix of the program (the stream, call by call) *)
 Theorem C02_writer_is_spec_prefix : forall enc0 ver s0 pre post,
   writer_init enc0 ver = (s0, Ok tt) -> enc_ok enc0 -> Forall call_good (pre ++ post) -> accepted s0 (pre ++ post) ->
-  metas_encoded s0 (pre ++ post) ->
   spec_serialize enc0 ver pre = Some (w_out (snd (run_calls s0 pre))).
 Proof. exact writer_is_spec_prefix. Qed.
 Print Assumptions C02_writer_is_spec_prefix.
 
 (* in particular the specification's serializer is defined there *)
 Theorem C02_spec_defined : forall enc0 ver s0 cs,
-  writer_init enc0 ver = (s0, Ok tt) -> enc_ok enc0 -> Forall call_good cs -> accepted s0 cs -> metas_encoded s0 cs ->
+  writer_init enc0 ver = (s0, Ok tt) -> enc_ok enc0 -> Forall call_good cs -> accepted s0 cs ->
   spec_serialize enc0 ver cs <> None.
 Proof. exact spec_serialize_defined. Qed.
 Print Assumptions C02_spec_defined.
@@ -112,7 +106,6 @@ Example C02_writer_is_spec_ex :
   writer_init RoundTripSeqExample.ex_enc0 RoundTripSeqExample.ex_ver = (RoundTripSeqExample.ex_s0, Ok tt) /\
   enc_ok RoundTripSeqExample.ex_enc0 /\ Forall call_good RoundTripSeqExample.ex_cs /\
   accepted RoundTripSeqExample.ex_s0 RoundTripSeqExample.ex_cs /\
-  metas_encoded RoundTripSeqExample.ex_s0 RoundTripSeqExample.ex_cs /\
   spec_serialize RoundTripSeqExample.ex_enc0 RoundTripSeqExample.ex_ver RoundTripSeqExample.ex_cs
     = Some (w_out (snd (run_calls RoundTripSeqExample.ex_s0 RoundTripSeqExample.ex_cs))) /\
   option_map (@length byte)
